@@ -7,7 +7,7 @@ FIX_COMMITS = ["ce0eac5", "ddff033", "c099f35", "5a5e3db", "bc61b3d", "167be66",
 
 # id -> (level text, level note, technique); only ids listed here are claimed
 CHECKS = {
-    "C01": ("Networks of 2..9 real nodes (only real nodes) over hours and days of virtual time: generated ids, families, announce ports, latency tables (round trips < 1.5 s), announcer/searcher schedules with overlaps and offsets on both sides of 24 h; must-find / must-not-find windows on the search streams.",
+    "C01": ("Networks of 2..9 real nodes (only real nodes) over hours and days of virtual time: generated ids, families, announce ports, latency tables (round trips < 1.5 s, plus a slow-pairs regime beyond the query timeout), structured renewal/expiry schedules, announcer/searcher schedules with overlaps and offsets on both sides of 24 h; must-find / must-not-find windows on the search streams.",
             "announce_peer datagrams need up to 1 s after the announcing search ends (asserted from 1.1 s); latencies below 1 s with round trips under the 1.5 s query timeout; long histories to ~6 days; quick tier uses <= 4 nodes for day-long cases.",
             "property-based testing (proptest) of end-to-end histories on a simulated network with a virtual clock"),
     "C02": ("Worlds of 1..1000 omniscient scripted nodes (uniform / adversarially clustered ids), one real searcher; announce targets compared with the independently computed 8 XOR-closest nodes, per-announce field and token checks, multiset equality of the stream with all delivered answers' values.",
@@ -28,16 +28,16 @@ CHECKS = {
     "C12": ("Unsolicited queries and responses with foreign transaction ids (short, long, unused action id, real id plus extra bytes, truncated) injected at generated times into a node that is bootstrapping/idle/searching, hostile node lists in genuine answers; membership invariants on contacts, search results and find_node probe answers.",
             "Forged action ids >= 2^20 are certainly unused in a short run.",
             "fault-injection property testing (proptest) with attributable unique markers"),
-    "C05": ("One real node on a simulated datagram network receives generated sequences of well-formed queries (all kinds/argument combinations, tids 0..32 B incl. tids echoed from the node's own in-flight requests) interleaved with non-queries; per-datagram reply discipline is decided from the wire log with an independent codec.",
+    "C05": ("One real node on a simulated datagram network receives generated sequences of well-formed queries (all kinds/argument combinations, tids 0..32 B incl. tids echoed from the node's own in-flight requests) interleaved with non-queries; per-datagram reply discipline is decided from the wire log with an independent codec; a second stage repeats the discipline on worlds with up to 500 stored peers and up to 180 table nodes.",
             "Replies are attributed by source address within the same virtual millisecond; the simulated network replaces UDP; residual thread_rng/HashSet-order nondeterminism is covered by confirmation re-runs.",
             "property-based testing (proptest): generated datagram histories against a real node, per-datagram oracle + global reply count"),
-    "C06": ("Generated get_peers/announce histories over hours with gaps hugging the 10/20/30-minute rotation arithmetic, against an interval model of token validity; both on the re-exported TokenStore and on a real node over the wire (incl. restarts and cross-IP, never-issued, wrong-length tokens).",
+    "C06": ("Generated get_peers/announce histories over hours with gaps hugging the 10/20/30-minute rotation arithmetic, and structured rounds around one lazy rotation, against an interval model of token validity; both on the re-exported TokenStore and on a real node over the wire (incl. restarts and cross-IP, never-issued, wrong-length tokens, right tokens with extra bytes or cut short).",
             "Virtual clock hook; 2^-31 chance that a random token validates (handled by confirmation); between 10 and 30 minutes either answer is accepted.",
             "model-based property testing (proptest histories vs. reference interval model)"),
     "C07": ("Generated announce/get_peers histories over days (renewals, 24 h -/+ ms, bulk announces crossing the 500-pair limit, both families) against a reference map model, on the re-exported AnnounceStorage and on a real node over the wire.",
             "Exact-24h ages are not asserted; equality of returned sets is asserted only when the full set fits a 1500-byte reply.",
             "model-based property testing (proptest histories vs. reference map)"),
-    "C08": ("Generated operation sequences (offers as good/hearsay, repeats, clashes, queries sent/received, time steps) on the real RoutingTable; shape invariants over a full dump after every op and pre/post transition rules for every offer.",
+    "C08": ("Generated operation sequences (offers as good/hearsay, responses through add_nodes, repeats, clashes, queries sent/received, time steps; optional prefixes that grow the table to up to 160 buckets) on the real RoutingTable; shape invariants over a full dump after every op and pre/post transition rules for every offer.",
             "Uses cfg-guarded re-exports; router set fixed before the first offer; standing read under the virtual clock.",
             "stateful property testing (proptest op sequences + invariant and transition-rule oracle)"),
     "C09": ("Table states reached by generated operation sequences x generated targets: closest_nodes is multiset-equal to the live nodes of a full dump and its first 8 per family contain every node sharing a longer prefix with the target; wire stage probes a real node with find_node/get_peers and 161 dump probes.",
@@ -46,7 +46,7 @@ CHECKS = {
     "C13": ("Generated KRPC messages over the whole field space; canonical encoding by an independent codec; decode(canon)==model, decode(canon).encode()==canon, permuted/unknown-key variants decode equal, negative classes rejected; plus a libFuzzer round-trip target.",
             "Trusts the harness's own codec (self-checked on BEP5 examples); unknown keys are UTF-8 names outside BEP5/32.",
             "property-based testing (proptest) with round-trip/differential/metamorphic oracles + coverage-guided fuzzing (libFuzzer)"),
-    "C14": ("Structure-aware mutations of valid datagrams (length prefixes of every magnitude, integer edge texts, nesting to 1500 levels, truncation, type swaps, ...) decoded in supervised worker processes on a 2 MiB stack under a counting allocator; datagram sequences injected into a live node followed by liveness checks; plus a libFuzzer decode target.",
+    "C14": ("Structure-aware mutations of valid datagrams (length prefixes of every magnitude, integer edge texts, nesting to 1500 levels, truncation, type swaps, fields inflated to the datagram limit, ...) decoded in supervised worker processes on a 2 MiB stack under a counting allocator; datagram sequences injected into a live node followed by liveness checks; plus a libFuzzer decode target.",
             "Allocation bound 256 KiB single / 8 MiB total per input; opt-level 2 build with debug assertions; worker death attributed to the input in flight.",
             "structure-aware fuzzing / property-based testing (proptest mutators, supervised workers) + libFuzzer"),
     "C15": ("Generated builder configurations (routers/nodes overlap, up to 40 contacts, silent/error/garbage contacts), outage patterns up to 2 h incl. flapping, and bootstrapped() callers at generated times; resolution-time bounds and API liveness under virtual time.",
@@ -55,7 +55,7 @@ CHECKS = {
     "C16": ("Networks of real nodes with a stored peer; a fresh node issues searches at generated times relative to its bootstrap; metamorphic comparison with a twin node's search issued right after bootstrapped().",
             "Twin node on the same simulated network provides the reference result.",
             "property-based testing (proptest) with a metamorphic oracle"),
-    "C17": ("One real node with 0..500 stored peers (v4/v6), 0..24 table nodes of both families, queries of every kind/want/tid length; every datagram the node emits is measured on the simulated wire.",
+    "C17": ("One real node with 0..500 stored peers (v4/v6), 0..180 table nodes of both families (incl. large single-family tables), queries of every kind/want/tid length; every datagram the node emits is measured on the simulated wire.",
             "tid lengths up to 32 bytes as quantified.",
             "property-based testing (proptest) with a size oracle over the wire log"),
     "C18": ("Runs of 10 min..2 h (thorough 12 h) of a real node with 1..20 contacts and outages; hook counters sampled every 2.5 virtual seconds; windowed rate bound over all sample pairs and at most one pending refresh check.",
